@@ -38,7 +38,8 @@ type c09Schema struct {
 	lburst   int32
 	gburst   int32
 	// after the global limit was lowered the previous one is tolerated until
-	// the gateway has applied one server answer that arrived afterwards
+	// the gateway has completed a reconcile round that began afterwards (seen
+	// from outside: the second allocate answer returned after the change)
 	graceOld  int32
 	graceFrom int
 }
@@ -465,7 +466,10 @@ func RunC09(r *sim.Run) {
 		sc.Settle()
 		mu.Lock()
 		for _, s := range schemas {
-			if s.graceOld > 0 && allocReturned > s.graceFrom {
+			// the second answer: the first one may belong to a reconcile round that
+			// began before the change (its request can wait in the client's own rate
+			// limiter), and the count strategy applies a changed limit when a round begins
+			if s.graceOld > 0 && allocReturned >= s.graceFrom+2 {
 				s.graceOld = 0
 				r.Probe("lowered_limit_enforced_after_next_answer")
 			}
